@@ -12,7 +12,7 @@ from .engine import Unsupported
 from .ops import FullEngine
 from . import solve
 
-CONTRACT_MODULES = ["contracts.structure", "contracts.helpers", "contracts.builders", "contracts.props"]
+CONTRACT_MODULES = ["contracts.structure", "contracts.helpers", "contracts.builders", "contracts.traversal", "contracts.props"]
 
 
 def load_contracts():
@@ -99,9 +99,44 @@ def verify_lemma(lemma_id: str, repo_root=None, keep_models=False):
 
 
 def discharge_all(eng, res, keep_models=False, shard=None):
+    import z3
+    from .engine import Oblig
     base = eng.base_facts()
+    # obligations of one group share their hypotheses: try the conjunction first (one query instead of many)
+    groups = {}
+    order = []
+    for ob in eng.obligs:
+        key = ob.group if ob.group is not None else ("single", ob.oid)
+        if key not in groups:
+            groups[key] = []
+            order.append(key)
+        groups[key].append(ob)
+    pre_proved = {}
+    for gi, key in enumerate(order):
+        members = groups[key]
+        if shard is not None and gi % shard[1] != shard[0]:
+            for ob in members:
+                pre_proved[ob.oid] = "skip"
+            continue
+        if len(members) > 1:
+            nontriv = [ob for ob in members if not z3.is_true(ob.goal)]
+            if nontriv:
+                comb = Oblig(members[0].oid + "+group", members[0].func, "group", members[0].hyps, members[0].schemas,
+                             z3.And(*[ob.goal for ob in nontriv]))
+                try:
+                    r = solve.discharge(comb, eng.ct.axioms_for, base, want_model=False)
+                except Exception:
+                    r = None
+                if r is not None and r.status == "proved":
+                    for ob in nontriv:
+                        pre_proved[ob.oid] = (r.backend + " (grouped)", round(r.seconds / len(nontriv), 4), r.ninst)
     for idx, ob in enumerate(eng.obligs):
-        if shard is not None and idx % shard[1] != shard[0]:
+        pp = pre_proved.get(ob.oid)
+        if pp == "skip":
+            continue
+        if pp is not None:
+            res["obligations"].append({"id": ob.oid, "kind": ob.kind, "status": "proved", "backend": pp[0], "seconds": pp[1],
+                                       "ninst": pp[2], "meta": ob.meta})
             continue
         try:
             r = solve.discharge(ob, eng.ct.axioms_for, base)
@@ -121,6 +156,33 @@ def discharge_all(eng, res, keep_models=False, shard=None):
         res["obligations"].append(entry)
     res["paths"] = eng.stats["paths"]
     res["pruned"] = eng.stats["pruned"]
+
+
+def verify_side(pid: str, repo_root=None):
+    """syntactic side conditions of a property (pyvc/sidecond.py)"""
+    from . import sidecond
+    t0 = time.time()
+    repo = Repo(repo_root)
+    res = {"function": f"side-conditions/{pid}", "status": "ok", "obligations": [], "sha256": None, "file": None, "lemma": True}
+    items = []
+    if pid == "C12":
+        items += sidecond.ownership(repo)
+    if pid == "C19":
+        items += sidecond.no_setters(repo, "UniverseLaws", ["edge_whitelist", "mixed_links", "cycles", "multipath", "multiverse"])
+    ident = sidecond.identity_model(repo)
+    for (oid, ok, why, fi, line) in items:
+        res["obligations"].append({"id": oid, "kind": "side", "status": "proved" if ok else "refuted", "backend": "syntactic",
+                                   "seconds": 0.0, "meta": {"clause": why or "ownership discipline", "trail": "",
+                                                            "where": (fi.file + ":" + str(line)) if fi else ""}})
+    for (oid, ok, why, fi, line) in ident:
+        if not ok:
+            res["status"] = "undecided"
+            res["reason"] = "assumption A4 (identity model) does not hold on this tree: " + why
+    res["obligations"].append({"id": f"A4/identity-model/{pid}", "kind": "side", "status": "proved" if res["status"] == "ok" else "unknown",
+                               "backend": "syntactic", "seconds": 0.0, "meta": {"clause": "no repo class overrides __eq__/__hash__/__bool__/...", "trail": ""}})
+    res["seconds"] = time.time() - t0
+    res["paths"] = 0
+    return res
 
 
 def print_result(res, verbose=False):
